@@ -8,6 +8,7 @@ package netx
 import (
 	"fmt"
 	"os"
+	"verifharness/minex"
 
 	"go.uber.org/zap"
 	"math/big"
@@ -18,7 +19,6 @@ import (
 	"go.sia.tech/core/consensus"
 	"go.sia.tech/core/gateway"
 	"go.sia.tech/core/types"
-	"go.sia.tech/coreutils"
 	"go.sia.tech/coreutils/chain"
 	"go.sia.tech/coreutils/syncer"
 	"go.sia.tech/coreutils/testutil"
@@ -124,9 +124,7 @@ func (nt *Net) BuildOn(cs consensus.State, o MineOpts) types.Block {
 	if o.Mut != nil {
 		o.Mut(&b, cs)
 	}
-	if !coreutils.FindBlockNonce(cs, &b, 20*time.Second) {
-		panic("netx: no nonce found")
-	}
+	minex.FindNonce(cs, &b) // not bounded by the wall clock (a loaded machine is not a failure)
 	return b
 }
 
